@@ -240,6 +240,21 @@ theorem c08_ids_distinct (c : Reg.Cfg) (loc : List Reg.Feat) (rem : Nat → List
     ((Reg.run c loc rem ops).subs.map (·.id)).Nodup :=
   (Reg.history_subInv c loc rem ops).ids
 
+/-- Ids are NEVER REUSED (every member, every history split at any point): whatever follows a history — requests,
+    deletes, drops, entity removals —, a subscription whose id is not above the id counter reached by that history is
+    one of the subscriptions registered at that point, the same entry with the same pair; a pair that is deleted and
+    subscribed again gets a new id. -/
+theorem c08_ids_never_reused (c : Reg.Cfg) (loc : List Reg.Feat) (rem : Nat → List Reg.Feat) (ops1 ops2 : List Reg.Op)
+    (e : Reg.Entry) (he : e ∈ (Reg.run c loc rem (ops1 ++ ops2)).subs) (hid : e.id ≤ (Reg.run c loc rem ops1).subNum) :
+    e ∈ (Reg.run c loc rem ops1).subs := by
+  unfold Reg.run at he hid ⊢
+  rw [List.foldl_append] at he
+  exact Reg.old_id_old_entry c ops2 _ e he hid
+
+/-- non-vacuity: peer 2's pair had id 2, is deleted and subscribed again: the counter stood at 4, the new entry has id 5 -/
+example : (Reg.run {} loc rem hist).subNum = 4 ∧ (Reg.subsOf (Reg.run {} loc rem hist) 2).map (·.id) = [2] ∧
+    (Reg.subsOf (Reg.run {} loc rem (hist ++ [.unsub 2 0 [1] 1 [1] 1, .sub 2 [1] 1 [1] 1 1])) 2).map (·.id) = [5] := by decide
+
 /-- non-vacuity: ids after a refused duplicate (the id is drawn before the duplicate check) and a delete -/
 example : ((Reg.run {} loc rem (hist ++ [.unsub 2 0 [1] 1 [1] 1, .sub 2 [1] 1 [1] 1 1])).subs.map (·.id)) = [1, 3, 5] ∧
     (Reg.subsOf (Reg.run {} loc rem hist) 2).map (·.id) = [2] := by decide
